@@ -10,6 +10,7 @@ import (
 	"errors"
 	"io"
 
+	"mellium.im/xmlstream"
 	"mellium.im/xmpp/stream"
 )
 
@@ -59,7 +60,15 @@ func (r *reader) Token() (xml.Token, error) {
 		switch t.Name.Local {
 		case "error":
 			e := stream.Error{}
-			err = xml.NewTokenDecoder(r.r).DecodeElement(&e, &t)
+			// Replay the start element into the decoder that unmarshals the error:
+			// if r.r is not itself an *xml.Decoder (eg. while a stream header is
+			// expected) a fresh decoder has an empty element stack and the error's
+			// UnmarshalXML method would make it panic.
+			d := xml.NewTokenDecoder(xmlstream.MultiReader(xmlstream.Token(t), r.r))
+			if _, err = d.Token(); err != nil {
+				return nil, err
+			}
+			err = d.DecodeElement(&e, &t)
 			if err != nil {
 				return nil, err
 			}
